@@ -66,9 +66,9 @@ META = {
             "design_ref": "DESIGN.md 4 (C08)", "level_text": "seeded exploration of learn streaks directly after construction, clone, each mutation kind and both load paths, tau in {1, .5, .1, .01}, policy delay 1-3, done patterns all-0/all-1/mixed, for DQN/double DQN, CQN, Rainbow (1-step, n-step, PER), DDPG, TD3, MADDPG, MATD3",
             "level_note": "share_encoders=False and no BatchNorm encoders in this check (tied encoders are not soft-updated by design); loss value recomputed for DQN, DDPG, TD3 only"},
     "C12": {"technique": _T + "real AsyncPettingZooVecEnv + _async_worker on a fake multiprocessing context under a baton-passing scheduler with virtual clock; sequential reference of N scripted environments",
-            "design_ref": "DESIGN.md 4 (C12), appendix A", "level_text": "seeded exploration of worker interleavings (every pipe send/recv/poll, queue op, process start/join and shared-memory copy is a scheduling point), per-call virtual delays, 1-5 sub-environments, 1-3 agents, 7 observation kinds, term/trunc/mixed endings, leaving agents, copy and no-copy mode; plus the single-environment auto-reset wrapper",
+            "design_ref": "DESIGN.md 4 (C12), appendix A", "level_text": "seeded exploration of worker interleavings (every pipe send/recv/poll, queue op, process start/join and shared-memory copy is a scheduling point), per-call virtual delays, 1-5 sub-environments, 1-3 agents, 7 observation kinds, term/trunc/mixed endings, leaving agents, copy and no-copy mode, start method fork / spawn; plus the single-environment auto-reset wrapper",
             "level_note": "pre-emption only at synchronisation points; pipe/process semantics are validated against real multiprocessing by selftest/conformance.py; placeholder values for agents that left are not part of the statement and not compared"},
-    "C13": {"technique": _T + "same simulator with a fault plan (sub-environment raises / stalls past the timeout / dies at (worker, command, call number)), misuse call sequences, deadlock detection = hang",
+    "C13": {"technique": _T + "same simulator with a fault plan (sub-environment raises / stalls past the timeout / dies at (worker, command, call number)), misuse call sequences, start method fork (workers inherit every descriptor open in the parent) or spawn per case, deadlock detection = hang",
             "design_ref": "DESIGN.md 4 (C13), appendix A", "level_text": "call sequences are sampled; for a sampled sequence the single-fault space (worker x command x call number x {raise, stall, die}) is enumerated completely in the thorough tier (a slice in 10% of quick cases), double faults are sampled; a hang is a Deadlock raised by the scheduler, promptness is measured on the virtual clock",
             "level_note": "not demanded: usability after a timeout / dead worker, a particular exception for a dead worker; the documented misuse errors and exception-type propagation are"},
     "C17": {"technique": _T + "scripted on-policy rollouts with id-carrying observations, recorder at the get_experiences_samples seam, per-(agent, env) reference GAE; PPO also through the real train_on_policy on a scripted vector environment",
